@@ -19,6 +19,10 @@ const (
 	c07Q2 = "3:p,c=Q2" // three columns, two declared parameters
 )
 
+// c07Big is a syntactically valid 4100-byte program: parsing it under an unused name pushes the
+// connection's message buffer across its 4 KiB allocation granule.
+var c07Big = "0:c=" + strings.Repeat("x", 4096)
+
 type nletter struct {
 	Name  string
 	Kind  string // parse bind exec descS descP closeS closeP sync
@@ -62,6 +66,7 @@ func c07Alphabet() []nletter {
 		out = append(out, nletter{Name: fmt.Sprintf("Close(P %q)", p), Kind: "closeP", A: p, Bytes: pgproto.Close('P', p)})
 	}
 	out = append(out, nletter{Name: "Sync", Kind: "sync", Bytes: pgproto.Sync()})
+	out = append(out, nletter{Name: "Parse(z, 4100-byte query)", Kind: "filler", B: c07Big, Bytes: pgproto.Parse("z", c07Big)})
 	return out
 }
 
@@ -236,6 +241,8 @@ func (s nstate) step(l nletter) []nbranch {
 		return []nbranch{{reply: []string{"3"}, next: n}}
 	case "sync":
 		return forkDropPortals([]nbranch{{reply: []string{"Z(I)"}, next: s}})
+	case "filler":
+		return []nbranch{{reply: []string{"1"}, cbs: []string{"parse:" + l.B}, next: s}}
 	}
 	panic("c07 step: " + l.Name)
 }
